@@ -1,0 +1,47 @@
+package shdb
+
+import (
+	"bytes"
+	"encoding/gob"
+	"testing"
+
+	"gotest.tools/assert"
+
+	"github.com/shutter-network/shutter/shlib/puredkg"
+)
+
+// A PureDKG that is stored while it still waits for the messages of other keypers must come
+// back with those entries unset, otherwise the messages are refused as duplicates.
+func TestPureDKGRoundTripKeepsUnsetEntries(t *testing.T) {
+	a := puredkg.NewPureDKG(1, 3, 2, 0)
+	b := puredkg.NewPureDKG(1, 3, 2, 1)
+	_, _, err := a.StartPhase1Dealing()
+	assert.NilError(t, err)
+	commitment, evals, err := b.StartPhase1Dealing()
+	assert.NilError(t, err)
+
+	encoded, err := EncodePureDKG(&a)
+	assert.NilError(t, err)
+	decoded, err := DecodePureDKG(encoded)
+	assert.NilError(t, err)
+
+	for i := range a.Commitments {
+		assert.Equal(t, a.Commitments[i] == nil, decoded.Commitments[i] == nil)
+		assert.Equal(t, a.Evals[i] == nil, decoded.Evals[i] == nil)
+	}
+	assert.NilError(t, decoded.HandlePolyCommitmentMsg(commitment))
+	assert.NilError(t, decoded.HandlePolyEvalMsg(evals[0]))
+}
+
+// Values stored before the presence record was added still decode.
+func TestPureDKGDecodeWithoutPresenceRecord(t *testing.T) {
+	a := puredkg.NewPureDKG(1, 3, 2, 0)
+	_, _, err := a.StartPhase1Dealing()
+	assert.NilError(t, err)
+	buff := bytes.Buffer{}
+	assert.NilError(t, gob.NewEncoder(&buff).Encode(&a))
+	decoded, err := DecodePureDKG(buff.Bytes())
+	assert.NilError(t, err)
+	assert.Equal(t, decoded.Eon, a.Eon)
+	assert.Equal(t, decoded.Phase, a.Phase)
+}
